@@ -1204,7 +1204,9 @@ func handleState(fr *FrameHeader, strm *Stream) {
 	case StreamStateReserved:
 		// TODO: ...
 	case StreamStateOpen:
-		if fr.Flags().Has(FlagEndStream) {
+		// Bit 0x1 is END_STREAM on DATA and HEADERS only. On every other type
+		// it is undefined and has to be ignored (RFC 7540 4.1).
+		if (fr.Type() == FrameData || fr.Type() == FrameHeaders) && fr.Flags().Has(FlagEndStream) {
 			strm.SetState(StreamStateHalfClosed)
 		} else if fr.Type() == FrameResetStream {
 			strm.SetState(StreamStateClosed)
